@@ -90,6 +90,7 @@ class Check:
         if heap:
             cmd.append('-Xmx' + heap)
         cmd.append('-Xss64m')
+        cmd.append('-Djava.io.tmpdir=' + self.tmp)
         if deque:
             cmd.append('-Dtlc2.tool.queue.IStateQueue=StateDeque')
         cmd += ['-cp', '/opt/veriftools/tla/tla2tools.jar:/opt/veriftools/tla/CommunityModules-deps.jar',
@@ -176,39 +177,59 @@ class Check:
             return tlaparse.parse_states_file(fh.read())
 
     # ------------------------------------------------------------------ Go harness
-    def overlay_file(self):
+    def overlay_file(self, overlays=()):
+        """overlay/<name>/<relpath>/<file>.go  ->  <REPO>/<relpath>/zz_verif_<name>_<file>.go  (never written into REPO)."""
         ov = {}
-        odir = os.path.join(ROOT, 'overlay')
-        for dirpath, _, files in os.walk(odir):
-            for f in files:
-                if not f.endswith('.go'):
-                    continue
-                rel = os.path.relpath(os.path.join(dirpath, f), odir)
-                ov[os.path.join(REPO, os.path.dirname(rel), 'zz_verif_' + f)] = os.path.join(dirpath, f)
-        p = os.path.join(self.tmp, 'overlay.json')
+        for name in overlays:
+            odir = os.path.join(ROOT, 'overlay', name)
+            for dirpath, _, files in os.walk(odir):
+                for f in files:
+                    if not f.endswith('.go'):
+                        continue
+                    rel = os.path.relpath(os.path.join(dirpath, f), odir)
+                    ov[os.path.join(REPO, os.path.dirname(rel), 'zz_verif_%s_%s' % (name, f))] = os.path.join(dirpath, f)
+        p = os.path.join(self.tmp, 'overlay-%s.json' % '-'.join(overlays))
         with open(p, 'w') as fh:
             json.dump({'Replace': ov}, fh)
         return p
 
-    def go_build(self, pkg):
-        """Builds /verif/harness/<pkg> against /repo's working tree with -tags verif. Returns the binary path."""
+    def harness_dir(self):
+        """The harness module; when VERIF_REPO points elsewhere than /repo a scratch copy with the replace rewritten."""
         hdir = os.path.join(ROOT, 'harness')
+        if os.path.realpath(REPO) != '/repo':
+            dst = os.path.join(self.tmp, 'harness')
+            if not os.path.isdir(dst):
+                shutil.copytree(hdir, dst)
+                gm = open(os.path.join(dst, 'go.mod')).read().replace('=> /repo', '=> ' + os.path.realpath(REPO))
+                open(os.path.join(dst, 'go.mod'), 'w').write(gm)
+            hdir = dst
         shutil.copyfile(os.path.join(REPO, 'go.sum'), os.path.join(hdir, 'go.sum'))
+        return hdir
+
+    def go_build(self, pkg, overlays=None):
+        """Builds /verif/harness/<pkg> against REPO's working tree with -tags verif. Returns the binary path.
+        overlays: names under /verif/overlay/ to inject (default: [pkg] if that directory exists)."""
+        if overlays is None:
+            overlays = [pkg] if os.path.isdir(os.path.join(ROOT, 'overlay', pkg)) else []
+        hdir = self.harness_dir()
         bdir = os.path.join(ROOT, '.build')
         os.makedirs(bdir, exist_ok=True)
         out = os.path.join(bdir, pkg.replace('/', '_') + '-%d' % os.getpid())
-        cmd = ['go', 'build', '-tags', 'verif', '-overlay', self.overlay_file(), '-o', out, './' + pkg]
+        cmd = ['go', 'build', '-tags', 'verif', '-overlay', self.overlay_file(overlays), '-o', out, './' + pkg]
         p = subprocess.run(cmd, cwd=hdir, env=goenv(), stdout=subprocess.PIPE, stderr=subprocess.STDOUT, text=True)
         if p.returncode != 0:
             raise Inconclusive('harness build failed for %s:\n%s' % (pkg, p.stdout[-4000:]))
         self._bins = getattr(self, '_bins', []) + [out]
         return out
 
-    def go_test_overlay(self, pkgpath, run, env=None, timeout=900):
-        """Runs overlay-injected in-package tests of /repo/<pkgpath> (files from /verif/overlay/<pkgpath>/*_test.go)."""
+    def go_test_overlay(self, pkgpath, run, overlays, env=None, timeout=900):
+        """Runs overlay-injected in-package tests of REPO/<pkgpath> (files /verif/overlay/<name>/<pkgpath>/*_test.go).
+        Returns (rc, output). Only for code that cannot be reached from the harness module (internal packages)."""
         e = goenv()
+        e['VERIF_SEED'] = str(self.seed)
+        e['VERIF_TIER'] = self.tier
         e.update(env or {})
-        cmd = ['go', 'test', '-tags', 'verif', '-overlay', self.overlay_file(), '-count=1', '-vet=off',
+        cmd = ['go', 'test', '-tags', 'verif', '-overlay', self.overlay_file(overlays), '-count=1', '-vet=off',
                '-run', run, '-timeout', '%ds' % timeout, './' + pkgpath]
         p = subprocess.run(cmd, cwd=REPO, env=e, stdout=subprocess.PIPE, stderr=subprocess.STDOUT, text=True)
         return p.returncode, p.stdout
